@@ -132,7 +132,7 @@ def main(argv=None):
     if time_cap is None and tier == 'thorough':
         # every thorough tier has a cap: jobs not started by then are skipped and reported
         # (cap_hit, skipped_jobs) - a capped run is never called exhaustive
-        time_cap = 3000
+        time_cap = 2400
     deadline = t0 + time_cap if time_cap else None
 
     tot = dict(evaluations=0, transitions=0, jobs=0, cap_hit=False,
